@@ -606,6 +606,24 @@ class C12(ScanProperty):
         nit = rng.randint(2, 3)
         live = []
         nextid = 0
+        shared = False
+        if rng.random() < 0.3:
+            # aliased inputs: slices of ONE buffer with the same start and different ends (`&text[..n]` and `text`; a
+            # refilled line buffer). What an iterator yields depends on ITS input, not on the address of its bytes: the
+            # first iterators are created on the shorter slices, deliver/peek one token, then the longer ones start
+            base = gen.gen_small_input(rng, alpha, maxlen=10, noise=0.1) or 'ab'
+            cuts = sorted(set(rng.randint(1, len(base)) for _ in range(rng.randint(1, 2))))
+            inputs = [base[:c] for c in cuts] + [base]
+            shared = True
+            for ii in range(len(inputs)):
+                steps.append(['new', nextid, rng.randrange(nsc), ii])
+                live.append((nextid, ii))
+                steps.append(['op', nextid, 'next'] if rng.random() < 0.7 else ['op', nextid, 'peek', 1])
+                if rng.random() < 0.3:
+                    steps.append(['drop', nextid])
+                    live.pop()
+                nextid += 1
+            nit = nextid
         for _ in range(rng.randint(6, 24)):
             r = rng.random()
             if (r < 0.15 or not live) and nextid < nit + 2:
@@ -642,7 +660,10 @@ class C12(ScanProperty):
                     steps.append(['op', it, 'advance_to', rng.randint(0, bs[-1] + 1)])
                 else:
                     steps.append(['op', it, 'current_mode'])
-        return {'modes': modes, 'inputs': inputs, 'cached': cached, 'nscanners': nsc, 'steps': steps}
+        w = {'modes': modes, 'inputs': inputs, 'cached': cached, 'nscanners': nsc, 'steps': steps}
+        if shared:
+            w['shared_storage'] = True
+        return w
 
 
 ALL.update({c.ID: c for c in [C06, C07, C10, C11, C12]})
@@ -722,6 +743,9 @@ class C01(ScanProperty):
         if i % 8 == 7:
             # a token that begins inside a run of the character at which the previous attempt failed
             modes, inp = gen.gen_run_retry_case(rng)
+        elif i % 8 == 3:
+            # ties at several lengths inside one token
+            modes, inp = gen.gen_tie_ladder_case(rng)
         elif i % 3 == 0:
             modes = gen.gen_config(rng, nmodes=1, la_prob=0.0, trans=False, depth=rng.randint(1, 3), max_pat=6)
             inp = gen.gen_input(rng, modes)
